@@ -11,14 +11,16 @@ import itertools, warnings
 import gen, parsecase, ctxdesc, psdesc, dump, docgen
 from common import wire, show_str, show_opt
 
-THEOREMS = ['Pylx.Legacy.C16_get_token', 'Pylx.Legacy.C16_get_latex_nodes', 'Pylx.Legacy.C16_get_latex_nodes_plain',
+THEOREMS = ['Pylx.Legacy.C16P.C16_legacy_args', 'Pylx.Legacy.C16P.C16_legacy_args_iff', 'Pylx.Legacy.C16P.C16_legacy_args_tolerant', 'Pylx.Legacy.C16P.C16_legacy_args_tolerant_iff',
+            'Pylx.Legacy.C16P.C16_legacy_args_full_false', 'Pylx.Legacy.C16P.C16_side_conditions_needed',
+            'Pylx.Legacy.C16_get_token', 'Pylx.Legacy.C16_get_latex_nodes', 'Pylx.Legacy.C16_get_latex_nodes_plain',
             'Pylx.Legacy.C16_get_latex_nodes_brace', 'Pylx.Legacy.C16_get_latex_nodes_end_environment',
             'Pylx.Legacy.C16_get_latex_nodes_mathmode', 'Pylx.Legacy.C16_collector_conservative',
             'Pylx.Legacy.C16_expression', 'Pylx.Legacy.C16_braced_group', 'Pylx.Legacy.C16_environment',
             'Pylx.Legacy.C16_maybe_optional_arg', 'Pylx.Legacy.C16_std_macro', 'Pylx.Legacy.C16_args_parser_string',
             'Pylx.Legacy.C16_legacy_args_partial', 'Pylx.Legacy.C16_F22_as_is', 'Pylx.Legacy.C16_F23_as_is',
             'Pylx.Legacy.C16_strict_brace_as_is', 'Pylx.Legacy.C16_opt_pre_space_as_is', 'Pylx.Legacy.C16_stop_at_end_as_is']
-PROOF_MODULES = ['C16']
+PROOF_MODULES = ['C16P', 'C16']
 RULE = ('LEG: every legacy entry point and call variant (get_token with include_brace_chars / environments / brackets_are_chars; '
         'get_latex_nodes with stop_upon_closing_brace / stop_upon_end_environment / stop_upon_closing_mathmode / read_max_nodes and '
         'combinations; get_latex_expression with strict_braces None/True/False; get_latex_braced_group with every brace type incl. '
@@ -46,7 +48,9 @@ LEVEL_TEXT = ('Theorems about the model Pylx.Legacy of the pylatexenc-2 shims, f
               'collector of Pylx.Parse; std_macro(name, optarg, numargs) = std_macro(name, argspec) = MacroSpec(name, argspec) and, repaired, '
               '= MacroSpec(name, args_parser=argspec); C16_legacy_args: for every argument string over {*,[,{} (induction on the string) the '
               'legacy MacroStandardArgsParser.parse_args algorithm and LatexArgumentsParser return the same argument nodes and final position '
-              'and fail together, in strict mode on the repaired code. The as-is code is refuted on concrete witnesses (F22, F23, closing brace '
+              'and fail together (C16P.C16_legacy_args: strict mode, C16_legacy_args_tolerant: tolerant mode; no hypothesis on the input or the '
+              'parser is left — only decidable side conditions on the parsing state that the walker default satisfies, each shown necessary '
+              'by a kernel-checked counterexample; the error KIND may differ for `\\begin x`, kernel-checked). The as-is code is refuted on concrete witnesses (F22, F23, closing brace '
               'accepted as empty argument, whitespace before an optional argument, ReachedStoppingCondition escaping at end of input).')
 LEVEL_NOTE = ('tolerant mode of C16_legacy_args by correspondence/oracle only; args_math_mode / optional_arg_no_space variants by '
               'correspondence/oracle only; Lean kernel + propext/Classical.choice/Quot.sound')
